@@ -11,6 +11,7 @@ import (
 	"net"
 	"net/http"
 	"net/http/httptest"
+	"os"
 	"regexp"
 	"runtime"
 	"strconv"
@@ -172,6 +173,8 @@ type wconn struct {
 	consumed int                // stream offset up to which responses were accounted
 	dead     bool               // closed (by an action, by the harness, or found closed)
 	gone     bool               // closed by the client side of the harness
+	latency  int64              // ms, latency configured when the connection was accepted
+	wrote    bool               // a response was written on it already
 	raw      net.Conn           // the client's TCP connection (under TLS at the mitm level)
 	outer    *trafficshape.Conn // conn level, faulty: the accepted connection under the wrapped one
 }
@@ -247,6 +250,12 @@ type world struct {
 
 // wire reports whether a real proxy writes the responses (e2e, mitm).
 func (w *world) wire() bool { return w.level != "conn" }
+
+// blackBoxOnly (C18_BLACKBOX=1, development aid) switches off the two checks that
+// read the listener's and the connection's own answers (Defaults/Latency/bitrates
+// after a rejected POST, GetCurrentThrottle at the range start), leaving only what a
+// client can observe: used to confirm that the timing oracles catch the same defects.
+var blackBoxOnly = os.Getenv("C18_BLACKBOX") == "1"
 
 // confirmedLeaks remembers which goroutine-count leak signatures this process
 // has already re-validated with the long bound; later occurrences of the same
@@ -371,9 +380,25 @@ func (w *world) failf(sig, format string, args ...interface{}) { w.v.Addf(sig, f
 func (w *world) post(cfg Config) {
 	var old []*trafficshape.Bucket
 	old = w.shapeBuckets()
+	type listenerDefaults struct {
+		d            trafficshape.Default
+		latency      time.Duration
+		readB, writB int64
+	}
+	snap := func() listenerDefaults {
+		out := listenerDefaults{latency: w.tsl.Latency(), readB: w.tsl.ReadBitrate(), writB: w.tsl.WriteBitrate()}
+		if d := w.tsl.Defaults(); d != nil {
+			out.d = *d
+		}
+		return out
+	}
+	before := snap()
 	rw := httptest.NewRecorder()
 	req, _ := http.NewRequest("POST", "http://martian.proxy/shape-traffic", bytes.NewReader(cfg.JSON()))
 	w.h.ServeHTTP(rw, req)
+	if after := snap(); rw.Code != 200 && after != before && !blackBoxOnly {
+		w.failf("C18/config/rejected/listener-defaults-changed", "a document answered %d changed the listener's defaults (Defaults, Latency, ReadBitrate, WriteBitrate) from %+v to %+v: %s", rw.Code, before, after, trunc(cfg.JSON(), 400))
+	}
 	valid := cfg.Valid()
 	accepted := rw.Code == 200
 	switch {
@@ -420,6 +445,9 @@ func (w *world) open(id int, faulty bool) {
 		return
 	}
 	wc := &wconn{id: id, cl: cl, raw: cl, st: &stream{}, cfg: w.active}
+	if w.active != nil {
+		wc.latency = w.active.latency
+	}
 	if w.level == "mitm" {
 		// CONNECT, then TLS with the proxy's forged certificate: from here on
 		// the proxy writes through a second shaped connection wrapping the TLS one
@@ -504,7 +532,7 @@ func (w *world) closeConn(id int, abort bool) {
 }
 
 // setContext is what proxy.go does for every response on a shaped connection.
-func setContext(ts *trafficshape.Conn, url string, rangeStart int64, headLen int64) {
+func setContext(ts *trafficshape.Conn, url string, rangeStart int64, headLen int64) (thr *trafficshape.ThrottleContext) {
 	ts.Context = &trafficshape.Context{}
 	for urlregex, buckets := range ts.LocalBuckets {
 		if match, _ := regexp.MatchString(urlregex, url); match {
@@ -521,6 +549,7 @@ func setContext(ts *trafficshape.Conn, url string, rangeStart int64, headLen int
 				}
 				ts.Context.NextActionInfo = ts.GetNextActionFromByte(rangeStart)
 				ts.Context.ThrottleContext = ts.GetCurrentThrottle(rangeStart)
+				thr = ts.Context.ThrottleContext
 				if ts.Context.ThrottleContext.ThrottleNow {
 					ts.Context.Buckets.WriteBucket.SetCapacity(ts.Context.ThrottleContext.Bandwidth)
 				}
@@ -528,6 +557,7 @@ func setContext(ts *trafficshape.Conn, url string, rangeStart int64, headLen int
 			break
 		}
 	}
+	return thr
 }
 
 // obs is what was observed for one response.
@@ -556,6 +586,8 @@ type obs struct {
 	beyond   bool // e2e: some expectation concerned an offset outside the first 4 KiB written
 	certain  int64
 	crossedH []*act
+	latency  int64                        // ms the connection owes before its first byte (first response only)
+	thr      *trafficshape.ThrottleContext // conn level: what GetCurrentThrottle told the harness-as-proxy
 }
 
 func headBytes(r Resp, seq int) []byte {
@@ -582,7 +614,7 @@ func laneWorker(w *world, wc *wconn, rs []Resp, seqs []int, out *[]*obs, id *int
 		body := kit.Bytes(r.Seed, r.Body)
 		o.H, o.L = len(head), len(body)
 		msg := append(append([]byte(nil), head...), body...)
-		setContext(wc.ts, o.url, r.Start, int64(len(head)))
+		o.thr = setContext(wc.ts, o.url, r.Start, int64(len(head)))
 		atomic.AddInt64(&w.progress, 1)
 		o.t0 = time.Now()
 		pos, k := 0, 0
@@ -966,6 +998,14 @@ func (w *world) evaluate(group []*obs) {
 		return t
 	}
 	for _, o := range group {
+		// a connection sleeps its latency once before its first write (the
+		// latency it was accepted with)
+		if !o.wc.wrote {
+			o.wc.wrote = true
+			o.latency = o.wc.latency
+		}
+	}
+	for _, o := range group {
 		if o.skip {
 			continue
 		}
@@ -993,6 +1033,13 @@ func (w *world) evaluate(group []*obs) {
 			continue
 		}
 		o.shape = shape
+		if o.thr != nil && !blackBoxOnly {
+			// what the shaped connection told the proxy about the throttle at the range start
+			bw, in := shape.throttleAt(o.start)
+			if in != o.thr.ThrottleNow || (in && bw != o.thr.Bandwidth) {
+				w.failf(w.sig(o, "throttle-at-range-start-wrong"), "response %s starts at offset %d; the shape's throttles %v put it in a throttle: %v (bandwidth %d), GetCurrentThrottle answered %+v", o.url, o.start, shape.thrs, in, bw, *o.thr)
+			}
+		}
 		if o.r.Chunked {
 			// offsets count wire bytes: only prefix integrity is decided, and
 			// the counts this response may have consumed are unknown
@@ -1113,25 +1160,38 @@ func (w *world) evaluate(group []*obs) {
 		a.lo, a.hi = sub(a.lo, X+U), sub(a.hi, X)
 	}
 	// delays (lower bounds only)
+	ms := func(x int64) time.Duration { return time.Duration(float64(x) * 0.9 * float64(time.Millisecond)) }
 	for _, o := range group {
-		if o.skip || o.shape == nil || o.r.Chunked {
+		if o.skip {
 			continue
 		}
-		thrS := o.shape.throttleSeconds(o.start, o.start+int64(o.db))
-		need := time.Duration(float64(o.certain)*0.9*float64(time.Millisecond)) + time.Duration(thrS*float64(time.Second))
-		if o.dur < need {
+		lat := ms(o.latency)
+		var thr time.Duration
+		var thrS float64
+		var halts int64
+		if o.shape != nil && !o.r.Chunked {
+			thrS = o.shape.throttleSeconds(o.start, o.start+int64(o.db))
+			thr = time.Duration(thrS * float64(time.Second))
+			halts = o.certain
+		}
+		if o.dur >= lat+thr+ms(halts) {
+			continue
+		}
+		class := "halt-too-fast"
+		switch {
+		case o.dur < lat:
+			class = "latency-too-fast"
+		case o.dur < lat+thr:
+			class = "throttle-too-fast"
+			if w.wire() && o.H+o.L > 4096 {
+				o.beyond = true
+			}
+		default:
 			for _, a := range o.crossedH {
 				w.mark(o, a)
 			}
-			class := "halt-too-fast"
-			if o.dur < time.Duration(thrS*float64(time.Second)) {
-				class = "throttle-too-fast"
-				if w.wire() && o.H+o.L > 4096 {
-					o.beyond = true
-				}
-			}
-			w.failf(w.sig(o, class), "response %s (head %d, body %d, range start %d, %d body bytes delivered) took %v; the halts it crossed (%v) add %d ms and its throttled ranges at least %.0f s", o.url, o.H, o.L, o.start, o.db, o.dur, o.crossedH, o.certain, thrS)
 		}
+		w.failf(w.sig(o, class), "response %s (head %d, body %d, range start %d, %d body bytes delivered) took %v; its connection owes a latency of %d ms, the halts it crossed (%v) add %d ms and its throttled ranges at least %.0f s", o.url, o.H, o.L, o.start, o.db, o.dur, o.latency, o.crossedH, halts, thrS)
 	}
 }
 
